@@ -31,13 +31,13 @@ const c38NSponsor = 2
 // c38Auth: auth with a fixed sponsor; nothing else of it is used by Bond/Unbond.
 type c38Auth struct{ addr codec.Address }
 
-func (c38Auth) GetTypeID() uint8                           { return 0 }
-func (c38Auth) ValidRange(chain.Rules) (int64, int64)      { return -1, -1 }
-func (c38Auth) Bytes() []byte                              { return []byte{0} }
-func (c38Auth) ComputeUnits(chain.Rules) uint64            { return 1 }
-func (c38Auth) Verify(context.Context, []byte) error       { return nil }
-func (a c38Auth) Actor() codec.Address                     { return a.addr }
-func (a c38Auth) Sponsor() codec.Address                   { return a.addr }
+func (c38Auth) GetTypeID() uint8                      { return 0 }
+func (c38Auth) ValidRange(chain.Rules) (int64, int64) { return -1, -1 }
+func (c38Auth) Bytes() []byte                         { return []byte{0} }
+func (c38Auth) ComputeUnits(chain.Rules) uint64       { return 1 }
+func (c38Auth) Verify(context.Context, []byte) error  { return nil }
+func (a c38Auth) Actor() codec.Address                { return a.addr }
+func (a c38Auth) Sponsor() codec.Address              { return a.addr }
 
 // c38Mut: map-backed state.Mutable holding the max bond balances.
 type c38Mut struct{ m map[string][]byte }
@@ -62,13 +62,13 @@ func c38Sponsor(i int) codec.Address { return codec.Address{1, byte(i + 1)} }
 
 // c38Txs builds the transaction universe through the real constructor (distinct IDs and sizes by construction:
 // different expiry/sponsor, MaxFee seeds).
-func c38Txs() [c38NTx]*chain.Transaction {
+func c38Txs(sponsorOf [c38NTx]int) [c38NTx]*chain.Transaction {
 	var txs [c38NTx]*chain.Transaction
 	for i := 0; i < c38NTx; i++ {
 		tx, err := chain.NewTransaction(
 			chain.Base{Timestamp: c38Expiry[i], ChainID: ids.ID{7}, MaxFee: uint64(1 + 300*i)},
 			[]chain.Action{},
-			c38Auth{c38Sponsor(c38SponsorOf[i])},
+			c38Auth{c38Sponsor(sponsorOf[i])},
 		)
 		if err != nil {
 			verifFail("setup-new-transaction")
@@ -80,11 +80,12 @@ func c38Txs() [c38NTx]*chain.Transaction {
 
 // c38World is the system under test plus the reference model.
 type c38World struct {
-	ctx    context.Context
-	bonder Bonder
-	mut    c38Mut
-	txs    [c38NTx]*chain.Transaction
-	max    [c38NSponsor]uint64
+	ctx       context.Context
+	bonder    Bonder
+	mut       c38Mut
+	txs       [c38NTx]*chain.Transaction
+	max       [c38NSponsor]uint64
+	sponsorOf [c38NTx]int
 	// reference model: fee of each bonded, unsettled transaction
 	bonded [c38NTx]bool
 	fee    [c38NTx]uint64
@@ -94,8 +95,8 @@ type c38World struct {
 const c38MaxBounded = uint64(1) << 62
 const c38RateBounded = uint64(1) << 40
 
-func c38NewWorld(bounded bool) *c38World {
-	w := &c38World{ctx: context.Background(), bonder: NewBonder(memdb.New()), mut: c38Mut{map[string][]byte{}}, txs: c38Txs()}
+func c38NewWorld(bounded bool, sponsorOf [c38NTx]int) *c38World {
+	w := &c38World{ctx: context.Background(), bonder: NewBonder(memdb.New()), mut: c38Mut{map[string][]byte{}}, txs: c38Txs(sponsorOf), sponsorOf: sponsorOf}
 	for s := 0; s < c38NSponsor; s++ {
 		w.max[s] = verifU64("max")
 		if bounded {
@@ -127,7 +128,7 @@ func (w *c38World) check() {
 		}
 		want := uint64(0)
 		for i := 0; i < c38NTx; i++ {
-			if c38SponsorOf[i] == s && w.bonded[i] {
+			if w.sponsorOf[i] == s && w.bonded[i] {
 				want += w.fee[i]
 				allSettled = false
 			}
@@ -151,7 +152,7 @@ func VerifC38Bonder() { c38BonderHistory(true, verifParam("maxOps", 3, 4)) }
 func VerifC38BonderOverflow() { c38BonderHistory(false, verifParam("maxOpsOverflow", 2, 3)) }
 
 func c38BonderHistory(bounded bool, maxOps int) {
-	w := c38NewWorld(bounded)
+	w := c38NewWorld(bounded, c38SponsorOf)
 	n := 1 + verifChoose("n", maxOps)
 	for k := 0; k < n; k++ {
 		i := verifChoose("tx", c38NTx)
@@ -217,13 +218,18 @@ func (d *c38DSMR) Accept(_ context.Context, block dsmr.Block) (dsmr.ExecutedBloc
 // VerifC38Node: arbitrary history of chunk builds (any transaction list incl. duplicates, any fee rate) and block
 // accepts (any non-decreasing timestamp, any previously built chunk) on the real fdsmr.Node + Bonder.
 func VerifC38Node() {
-	w := c38NewWorld(true)
+	// two transactions: A (sponsor 0, expiry 1000) and B (expiry 2000) of the same sponsor (quick) or of either sponsor (thorough)
+	sponsorOf := [c38NTx]int{0, 0, 1}
+	if verifParam("sponsorsOfB", 1, 2) == 2 {
+		sponsorOf[1] = verifChoose("sponsorOfB", 2)
+	}
+	w := c38NewWorld(true, sponsorOf)
 	inner := &c38DSMR{}
 	node := fdsmr.New[*c38DSMR, *chain.Transaction](inner, w.bonder)
 	maxEvents := verifParam("maxEvents", 3, 3)
 	maxTxs := verifParam("maxTxsPerChunk", 2, 2)
-	nTx := verifParam("txs", 2, 3)            // quick: two transactions of one sponsor; thorough: plus one of another sponsor
-	anyOrder := verifParam("anyOrder", 0, 1) // quick: chunk lists in non-decreasing transaction order only
+	nTx := 2
+	anyOrder := 0 // chunk lists in non-decreasing transaction order only ([A,B], not [B,A])
 	lastTS := int64(0)
 	n := 1 + verifChoose("n", maxEvents)
 	for k := 0; k < n; k++ {
